@@ -120,6 +120,9 @@ structure Script where
   wr : List Char := []
   rd : List Char := []
   env : List Char := []
+  upg : List Char := []     -- what the arriving request asks of gw_upgrade_policy(): 'c' = HTTP/2 extended
+                            -- CONNECT (rejected with 405: no host here enables upgrade), 'h' = HTTP/1.1 Upgrade
+                            -- header (stripped, the request goes on as any other)
 deriving Inhabited
 
 def Script.size (s : Script) : Nat :=
@@ -722,7 +725,12 @@ def opArrive (w : World) (s key : Nat) : World :=
     match r.1 with
     | none => finish (r.2.emit (.arrive none)) s false
     | some h =>
-      let w1 := { r.2 with noteSent := false }
+      let w1 : World := { r.2 with noteSent := false }
+      if w1.script.upg.head? = some 'c' then
+        -- gw_upgrade_policy() says 405 after the host was chosen and before a handler context
+        -- exists: nothing is assigned, no load is taken
+        finish ((w1.updAux s fun a => { a with status := 405 }).emit (.note "AR,")) s false
+      else
       let w1 := w1.updLink s fun l => { l with hctx := true, proc := none, state := .init }
       let w1 := (hostAssign w1 s h).updAux s fun a => { a with handler := true }
       let w1 := w1.emit (.arrive (some h))
